@@ -1,9 +1,9 @@
 (* Invariant 1: well-formedness of logs and of the entries carried by messages.
    - the entry at position p has index p+1 (indices consecutive from 1);
    - every entry's term is <= the holder's current term;
-   - logs are never empty; terms of nodes never decrease.
-   (That terms are non-decreasing ALONG a log is [log_sorted] in Safety4_LogMatching.v: it is a
-   corollary of the leader-log invariants.) *)
+   - terms are non-decreasing along every log (and along the entries of every message, starting
+     from the message's prevTerm);
+   - logs are never empty; terms of nodes never decrease. *)
 From Coq Require Import List Arith Lia Bool PeanoNat.
 Import ListNotations.
 Require Import PSO.Abstract.Model PSO.Abstract.Lib PSO.Abstract.Kstep.
@@ -14,11 +14,93 @@ Definition log_ok (l : list entry) (t : nat) : Prop :=
 Definition es_ok (pi : nat) (es : list entry) (t : nat) : Prop :=
   forall k e, nth_error es k = Some e -> eidx e = S (pi + k) /\ eterm e <= t.
 
+Definition sorted (l : list entry) : Prop :=
+  forall p q e e', p <= q -> nth_error l p = Some e -> nth_error l q = Some e' -> eterm e <= eterm e'.
+
 Record Inv1 (s : state) : Prop := {
   I1_log : forall j, log_ok (log (nodes s j)) (term (nodes s j));
   I1_ne : forall j, log (nodes s j) <> [];
-  I1_msg : forall t l pi pt es lc, In (AppendEntries t l pi pt es lc) (net s) -> es_ok pi es t
+  I1_msg : forall t l pi pt es lc, In (AppendEntries t l pi pt es lc) (net s) -> es_ok pi es t;
+  I1_sorted : forall j, sorted (log (nodes s j));
+  I1_msg_sorted : forall t l pi pt es lc, In (AppendEntries t l pi pt es lc) (net s) ->
+     sorted es /\ forall e, In e es -> pt <= eterm e
 }.
+
+Lemma sorted_snoc l e : sorted l -> (forall x, In x l -> eterm x <= eterm e) -> sorted (l ++ [e]).
+Proof.
+  intros St B p q x y L Hp Hq.
+  apply nth_error_snoc_cases in Hp as [[Lp Hp]|[-> ->]]; apply nth_error_snoc_cases in Hq as [[Lq Hq]|[-> ->]];
+    eauto; try lia.
+  apply B. eapply nth_error_In; eauto.
+Qed.
+
+Lemma sorted_skipn l k : sorted l -> sorted (skipn k l).
+Proof.
+  intros S0 p q e e' L Hp Hq. rewrite nth_error_skipn in Hp, Hq. apply (S0 (k + p) (k + q)); auto. lia.
+Qed.
+
+Lemma sorted_firstn l k : sorted l -> sorted (firstn k l).
+Proof.
+  intros S0 p q e e' L Hp Hq. apply nth_error_firstn_some in Hp as [_ Hp]. apply nth_error_firstn_some in Hq as [_ Hq].
+  apply (S0 p q); auto.
+Qed.
+
+(* the terms along [merge old new]: those of [new] as far as it reaches, then those of [old]
+   (the latter only when nothing was cut, in which case old and new carry the same terms) *)
+Lemma merge_term old new i e :
+  nth_error (merge old new) i = Some e ->
+  (exists b, nth_error new i = Some b /\ eterm b = eterm e) \/
+  (length new <= i /\ nth_error old i = Some e /\
+   forall k b, nth_error new k = Some b -> exists a, nth_error old k = Some a /\ eterm a = eterm b).
+Proof.
+  revert old i; induction new as [|n new' IH]; intros old i H; simpl in H.
+  - right. split; [simpl; lia|]. split; auto. intros k b Hk. destruct k; discriminate.
+  - destruct old as [|o old'].
+    + left. exists e. auto.
+    + destruct (Nat.eqb_spec (eterm o) (eterm n)) as [E|E].
+      * destruct i as [|i]; simpl in H.
+        -- injection H as <-. left. exists n. simpl. auto.
+        -- destruct (IH old' i H) as [[b [A B]]|(A & B & C)].
+           ++ left. exists b. auto.
+           ++ right. split; [simpl; lia|]. split; auto.
+              intros k b Hk. destruct k as [|k]; simpl in Hk.
+              ** injection Hk as <-. exists o. auto.
+              ** apply C; auto.
+      * left. exists e. auto.
+Qed.
+
+Lemma sorted_merge l p pe es :
+  sorted l -> nth_error l p = Some pe -> sorted es -> (forall e, In e es -> eterm pe <= eterm e) ->
+  sorted (firstn (S p) l ++ merge (skipn (S p) l) es).
+Proof.
+  intros Sl Hp Se Hpe.
+  assert (Hlen : length (firstn (S p) l) = S p).
+  { rewrite firstn_length. assert (p < length l) by (apply nth_error_Some; congruence). lia. }
+  assert (So : sorted (skipn (S p) l)) by (apply sorted_skipn; auto).
+  (* the term at a position of the result *)
+  assert (Low : forall a x, a < S p -> nth_error (firstn (S p) l ++ merge (skipn (S p) l) es) a = Some x ->
+                 nth_error l a = Some x).
+  { intros a x La H. rewrite nth_error_app1 in H by lia. apply nth_error_firstn_some in H. tauto. }
+  assert (High : forall a x, S p <= a -> nth_error (firstn (S p) l ++ merge (skipn (S p) l) es) a = Some x ->
+                 nth_error (merge (skipn (S p) l) es) (a - S p) = Some x).
+  { intros a x La H. rewrite nth_error_app2 in H by lia. rewrite Hlen in H. auto. }
+  intros a b x y L Ha Hb.
+  destruct (Nat.lt_ge_cases a (S p)) as [La|La]; destruct (Nat.lt_ge_cases b (S p)) as [Lb|Lb]; try lia.
+  - apply (Sl a b); auto.
+  - apply Low in Ha; auto. apply High in Hb; auto.
+    assert (eterm x <= eterm pe) by (apply (Sl a p); auto; lia).
+    destruct (merge_term _ _ _ _ Hb) as [[e [A B]]|(A & B & C)].
+    + rewrite <- B. apply nth_error_In in A. apply Hpe in A. lia.
+    + rewrite nth_error_skipn in B. assert (eterm pe <= eterm y) by (apply (Sl p (S p + (b - S p))); auto; lia). lia.
+  - apply High in Ha; auto. apply High in Hb; auto.
+    assert (Lab : a - S p <= b - S p) by lia.
+    destruct (merge_term _ _ _ _ Ha) as [[ea [A1 B1]]|(A1 & B1 & C1)];
+      destruct (merge_term _ _ _ _ Hb) as [[eb [A2 B2]]|(A2 & B2 & C2)].
+    + rewrite <- B1, <- B2. apply (Se (a - S p) (b - S p)); auto.
+    + destruct (C2 _ _ A1) as [oa [O1 O2]]. rewrite <- B1, <- O2. apply (So (a - S p) (b - S p)); auto.
+    + assert (b - S p < length es) by (apply nth_error_Some; congruence). lia.
+    + apply (So (a - S p) (b - S p)); auto.
+Qed.
 
 Lemma log_ok_mono l t t' : log_ok l t -> t <= t' -> log_ok l t'.
 Proof. intros H L p e Hp. destruct (H p e Hp). split; auto. lia. Qed.
@@ -61,6 +143,9 @@ Proof.
     + destruct p; discriminate.
   - intros _. discriminate.
   - intros; contradiction.
+  - intros _ p q e e' L Hp Hq. destruct p as [|[|p]]; simpl in Hp; try discriminate.
+    destruct q as [|[|q]]; simpl in Hq; try discriminate. injection Hp as <-. injection Hq as <-. lia.
+  - intros; contradiction.
 Qed.
 
 Lemma kstep_term_mono s s' j : kstep V s s' -> term (nodes s j) <= term (nodes s' j).
@@ -76,7 +161,7 @@ Qed.
 
 Lemma inv1_kstep s s' : Inv1 s -> kstep V s s' -> Inv1 s'.
 Proof.
-  intros [IL IN IM] K. constructor.
+  intros [IL IN IM IS IMS] K. constructor.
   - intros j. destruct K; simpl; auto; node_cases Hf j n; subst; auto.
     + eapply log_ok_mono; [apply IL|lia].
     + apply log_ok_snoc; apply IL.
@@ -89,6 +174,20 @@ Proof.
   - intros t0 l0 pi0 pt0 es0 lc0 H.
     destruct K; simpl in H; eauto; destruct H as [H|H]; eauto; try discriminate.
     injection H as <- <- <- <- <- <-. subst. apply es_ok_window. apply IL.
+  - (* logs sorted *)
+    intros j. pose proof (IS j) as Sj.
+    destruct K; subst x; sproj; auto; nc j; auto.
+    + apply sorted_snoc; auto. intros y Hy. simpl. apply In_nth_error in Hy as [q Hy]. apply IL in Hy. tauto.
+    + apply sorted_snoc; auto. intros y Hy. simpl. apply In_nth_error in Hy as [q Hy]. apply IL in Hy. tauto.
+    + destruct (IMS _ _ _ _ _ _ Hm) as [A B]. apply (sorted_merge _ p pe); auto. rewrite Hpt. auto.
+  - (* message entries sorted *)
+    intros t0 l0 pi0 pt0 es0 lc0 H.
+    destruct K; subst x; sproj; eauto; destruct H as [H|H]; eauto; try discriminate.
+    injection H as <- <- <- <- <- <-. split.
+    + apply sorted_firstn. apply sorted_skipn. apply IS.
+    + intros e He. apply In_nth_error in He as [q He]. apply nth_error_firstn_some in He as [_ He].
+      rewrite nth_error_skipn in He.
+      apply (IS n p (S p + q)); auto; [lia|]. apply nth_nth_error; auto.
 Qed.
 
 Theorem inv1_kreachable s : kreachable V s -> Inv1 s.
@@ -107,6 +206,9 @@ Theorem log_terms_le_current s j e :
 Proof.
   intros R H. apply In_nth_error in H as [p H]. apply (I1_log _ (inv1_reachable s R)) in H. tauto.
 Qed.
+
+Theorem log_terms_sorted s j : reachable V s -> sorted (log (nodes s j)).
+Proof. intros R. apply (I1_sorted _ (inv1_reachable s R)). Qed.
 
 Theorem log_nonempty s j : reachable V s -> log (nodes s j) <> [].
 Proof. intros R. apply (I1_ne _ (inv1_reachable s R)). Qed.
